@@ -18,7 +18,7 @@ import (
 
 // C12 — JSON document scanner accepts exactly RFC 8259; lexemes rebuild the document.
 
-var c12Tokens = toks(`{`, `}`, `[`, `]`, `:`, `,`, `"`, `a`, `\`, `u`, `0`, `1`, `-`, `.`, `e`, `+`, `true`, `null`, `false`, ` `, "\n", `"k"`, "\x01", "é", "\x1f")
+var c12Tokens = toks(`{`, `}`, `[`, `]`, `:`, `,`, `"`, `a`, `\`, `u`, `0`, `1`, `-`, `.`, `e`, `+`, `true`, `null`, `false`, ` `, "\n", `"k"`, "\x01", "é", "\x1f", "\x7f")
 
 func toks(ss ...string) [][]byte {
 	out := make([][]byte, len(ss))
@@ -419,6 +419,7 @@ func c12StateSearch(w *core.W) {
 			Check: func(in []byte) {
 				c12Case(w, in, "state")
 			},
+			Complete: ref.JSONCompletion,
 			Verdict: func(in []byte) string {
 				var err error
 				if tr {
